@@ -167,10 +167,10 @@ func FetchV2(ctx context.Context, st storage.Storer, req *FetchRequest, round Fe
 	}
 	if req.Depth > 0 {
 		baseArgs.Deepen = req.Depth
-		shallows, err := st.Shallow()
-		if err != nil {
-			return err
-		}
+	}
+	if shallows, err := st.Shallow(); err != nil {
+		return err
+	} else if len(shallows) > 0 {
 		baseArgs.Shallows = shallows
 	}
 
